@@ -926,7 +926,7 @@ def _thr_worker (item):
 def threaded_configs (cfg):
   """(funcs, deviation bound)"""
   if cfg.quick: return [(HANDOFF, 2), (None, 1)]
-  return [(HANDOFF, 3), (None, 2)]
+  return [(HANDOFF, 2), (None, 2)]
 
 
 def run_threaded_part (cfg, rep, which=None):
@@ -945,6 +945,69 @@ def run_threaded_part (cfg, rep, which=None):
     for r in pmap(_thr_worker, items, cfg.workers, seed=cfg.seed):
       rep.merge(r)
   return pts
+
+
+# ---------------------------------------------------------------------------------------------------
+# PART 3: the hub's alternative select function (pox.lib.epoll_select.EpollSelect) against select.select
+# ---------------------------------------------------------------------------------------------------
+def run_epoll_part (cfg, rep):
+  """Every sequence of <= depth calls select(rl, wl, [], 0) on ONE EpollSelect instance (it caches its
+  registrations between calls), rl and wl ranging over the subsets of two local stream sockets (one passed as
+  an object with fileno(), one as a raw fd), each socket readable or not at each call.  Reference: the standard
+  library's select.select on the same arguments at the same moment."""
+  import select as _select, socket as _socket
+  from pox.lib.epoll_select import EpollSelect
+  depth = cfg.pick(2, 3)
+  pairs = [_socket.socketpair() for _ in range(2)]
+  for a, b in pairs:
+    a.setblocking(False); b.setblocking(False)
+  objs = [pairs[0][0], pairs[1][0].fileno()]            # what the caller passes
+  names = {id(objs[0]): "sockA", objs[1]: "fdB"}
+  def name (o): return names.get(id(o), names.get(o, repr(o)))
+  def set_readable (i, want):
+    local, peer = pairs[i]
+    try:
+      while True: local.recv(64)
+    except (BlockingIOError, InterruptedError):
+      pass
+    if want: peer.send(b"x")
+  subsets = [(), (0,), (1,), (0, 1)]
+  calls = [(r, w, rd) for r in subsets for w in subsets for rd in subsets]
+  n = 0
+  try:
+    for d in range(1, depth + 1):
+      for seq in itertools.product(calls, repeat=d):
+        es = EpollSelect()
+        try:
+          obs = []
+          for k, (r, w, rd) in enumerate(seq):
+            for i in (0, 1): set_readable(i, i in rd)
+            rl = [objs[i] for i in r]; wl = [objs[i] for i in w]
+            want = _select.select(rl, wl, [], 0)
+            try:
+              got = es.select(rl, wl, [], 0)
+            except Exception as e:
+              rep.violation("%s:epoll-select:raises:%s" % (PID, type(e).__name__),
+                            "EpollSelect.select raised %s: %s in call %d of %r" % (type(e).__name__, e, k + 1, seq),
+                            dict(part="epoll", seq=[list(map(list, c)) for c in seq]))
+              break
+            rep.transitions += 1
+            g = tuple(sorted(name(o) for o in got[i]) for i in range(3))
+            x = tuple(sorted(name(o) for o in want[i]) for i in range(3))
+            obs.append(g)
+            if g != x:
+              rep.violation("%s:epoll-select:differs-from-select:%s" % (PID, "read" if g[0] != x[0] else "write" if g[1] != x[1] else "except"),
+                            "call %d of %r (rl, wl, readable sockets): EpollSelect reports %r, select.select %r" % (k + 1, seq, g, x),
+                            dict(part="epoll", seq=[list(map(list, c)) for c in seq]))
+              break
+          rep.evaluations += 1; n += 1
+          rep.outcome(("epoll", tuple(obs)))
+        finally:
+          es.close()
+  finally:
+    for a, b in pairs: a.close(); b.close()
+  rep.extra["epoll_sequences"] = n
+  return depth
 
 
 # ---------------------------------------------------------------------------------------------------
@@ -971,13 +1034,16 @@ def run (cfg):
     which = int(only.split(":")[1]); only = "threaded"
   if only in (None, "threaded"):
     pts = run_threaded_part(cfg, rep, which)
+  epoll_depth = None
+  if only in (None, "epoll"):
+    epoll_depth = run_epoll_part(cfg, rep)
   rep.state_count = rep.evaluations
   for k in ("cpu_ms_inline", "cpu_ms_threaded"):
     if k in rep.extra: rep.extra[k.replace("cpu_ms", "cpu_s")] = round(rep.extra.pop(k) / 1000.0, 1)
   rep.bound = dict(inline_suites=[dict(name=n, vocabulary=list(o), entities=e, total_yields=t, deviations=d, programs=counts.get(n))
                                   for n, o, e, t, d in suites],
                    threaded=[dict(funcs="hand-off functions" if f else "every line of recoco.py", deviations=b) for f, b in threaded_configs(cfg)],
-                   threaded_points=pts)
+                   threaded_points=pts, epoll_select_call_sequences_depth=epoll_depth)
   rep.rule = ("PART 1 (inline hub): every ordered tuple of entities within the suites listed under `bound` - an entity is a task "
               "(generator script of <=3 yields over the vocabulary: yield 0 / 1 / Sleep(2) / Sleep(None) / False / Select([fd],timeout None|1) / "
               "Again or task_function with a sub-task that yields a value | sleeps then yields | raises | returns before yielding | is a plain "
@@ -988,7 +1054,9 @@ def run (cfg):
               "virtual time per step in {0,0.625} (deviations, bounded); a program with a raising task is also run with that task returning "
               "instead (differential).  PART 2 (threaded hub): %d programs of the same grammar with the scheduler thread, the hub thread and "
               "an environment thread under the controlled-thread explorer, every schedule within the deviation bound (scheduling points: "
-              "lines of the hand-off functions + every Event/Queue/select/pinger/Thread operation).  distinct = distinct (per-entity step "
+              "lines of the hand-off functions / all lines of recoco.py + every Event/Queue/select/pinger/Thread operation).  PART 3: every sequence "
+              "of <=2 (thorough 3) select(rl, wl, [], 0) calls on one EpollSelect (the hub's use_epoll select function), rl/wl over the subsets "
+              "of two real local sockets x each readable or not, against select.select.  distinct = distinct (per-entity step "
               "times, received values, final states, verdict)" % len(THR_PROGRAMS))
   rep.assumptions = ["each selecting task has its own fd; an fd stays readable once readable",
                      "run() executes on the scheduler's own thread (Scheduler._thread), as in POX",
@@ -998,7 +1066,35 @@ def run (cfg):
   return rep
 
 
+def replay_epoll (data):
+  import select as _select, socket as _socket
+  from pox.lib.epoll_select import EpollSelect
+  pairs = [_socket.socketpair() for _ in range(2)]
+  for a, b in pairs: a.setblocking(False); b.setblocking(False)
+  objs = [pairs[0][0], pairs[1][0].fileno()]
+  nm = lambda o: "sockA" if o is objs[0] else "fdB"
+  es = EpollSelect(); lines = []; bad = False
+  try:
+    for r, w, rd in data["seq"]:
+      for i in (0, 1):
+        try:
+          while True: pairs[i][0].recv(64)
+        except (BlockingIOError, InterruptedError): pass
+        if i in rd: pairs[i][1].send(b"x")
+      rl = [objs[i] for i in r]; wl = [objs[i] for i in w]
+      want = tuple(sorted(map(nm, x)) for x in _select.select(rl, wl, [], 0))
+      try: got = tuple(sorted(map(nm, x)) for x in es.select(rl, wl, [], 0))
+      except Exception as e: got = "raised %s: %s" % (type(e).__name__, e)
+      lines.append("select(rl=%r, wl=%r) with readable=%r: EpollSelect %r, select.select %r" % ([nm(o) for o in rl], [nm(o) for o in wl], rd, got, want))
+      if got != want: bad = True; break
+  finally:
+    es.close()
+    for a, b in pairs: a.close(); b.close()
+  return bad, "\n".join(lines)
+
+
 def replay (cfg, data):
+  if data.get("part") == "epoll": return replay_epoll(data)
   prog = _prog_from_json(data["prog"])
   old = sys.stdout, sys.stderr
   sys.stdout = sys.stderr = _Null()
